@@ -498,6 +498,73 @@ def driver_part(chk, tier):
     if judged < n / 2: chk.broken.append('driver part: only %d of %d runs judged' % (judged, n))
 
 
+# ---------------------------------------------------------------------------------------------------
+# shared subexpression: two constraints f(x) + u <= 5 and f(x) + w <= 7 use the same subexpression f(x).  The rows
+# generated for f belong to both constraints: whatever the combining rule is, the two users must be treated alike
+# (a value placed on the shared rows reaches both or neither; a value given for either user reaches the shared rows
+# in the same way).
+V5 = [(0.0, 4.0, False, 0.5), (0.0, 4.0, False, 0.5), (-2.0, 2.0, True, 1.0), (0.0, 1.0, True, 1.0)]
+SHARED = {
+    'abs(x)': ('abs', ('v', 2)), 'max(x,b)': ('max', ('v', 2), ('v', 3)), 'x*b': ('mul', ('v', 2), ('v', 3)),
+    'if b then x': ('if', ('ge', ('v', 3), N(1)), ('v', 2), N(0)), 'min(x,b,1)': ('min', ('v', 2), ('v', 3), N(1)),
+}
+
+
+def shared_models():
+    for nm, f in SHARED.items():
+        yield ('shared %s' % nm, Model(V5, acons=[(f, {0: 1.0}, -INF, 5.0), (f, {1: 1.0}, -INF, 7.0)], obj=('min', None, {0: 1.0, 1: 1.0})))
+
+
+def work_shared(job):
+    global _srv
+    if _srv is None: _srv = flatlib.Server(flatlib.build())
+    name, m, cfgname, types = job
+    st = collections.Counter(); viols = []
+    acc = acc_for(types)
+    r = _srv.request('convert', nl=m.nl(), opts='', acc=acc)
+    if r.get('status') != 'ok' or 'PLApprox' in r.get('warnings', ''):
+        st['shared_skipped'] += 1; return dict(st), viols
+    nv = len(r['vars'])
+    groups = collections.OrderedDict(); kind = {}
+    for c in r['cons']:
+        g = c['group']; k = len(groups.setdefault(g, [])); groups[g].append(c)
+        vs = con_vars(c)
+        kind[(g, k)] = 'own0' if 0 in vs else 'own1' if 1 in vs else 'shared'      # u = v0 only in c0, w = v1 only in c1
+    nshared = sum(1 for v in kind.values() if v == 'shared')
+    if nshared == 0 or not any(v == 'own0' for v in kind.values()) or not any(v == 'own1' for v in kind.values()):
+        st['shared_no_shared_rows'] += 1; return dict(st), viols
+    st['shared_instances'] += 1
+    def cons_arg(fn):
+        return ';'.join('%d:%s' % (g, vec([fn(kind[(g, k)]) for k in range(len(cs))])) for g, cs in groups.items())
+    for knd, val in (('GenericInt', 7), ('IIS', 1), ('GenericDbl', 2.5), ('GenericDbl', -2.5), ('Solution', 7.5)):
+        _srv.request('convert', nl=m.nl(), opts='', acc=acc)
+        kw = dict(kind=knd, vars=vec([0] * nv), cons=cons_arg(lambda s_: val if s_ == 'shared' else 0))
+        res = _srv.request('postsolve', **kw)
+        st['transfers'] += 1
+        if res.get('status') != 'ok': continue
+        ys = res['res']['cons'].get('0', [])
+        if len(ys) >= 2 and ys[0] != ys[1]:
+            viols.append(('C04 postsolve %s: a value on the rows of a shared subexpression reaches only one of its two users cfg=%s' % (knd, cfgname),
+                          {'model': m.describe(), 'result': ys, 'rows': {str(k): v for k, v in kind.items()}},
+                          {'nl': m.nl(), 'acc': acc, 'ops': [['postsolve', kw]]}))
+    for knd, val in (('LazyUserCutFlags', 1), ('GenericInt', 5), ('GenericDbl', 2.5)):
+        img = []
+        for isrc in (0, 1):
+            _srv.request('convert', nl=m.nl(), opts='', acc=acc)
+            flags = [0, 0]; flags[isrc] = val
+            kw = dict(kind=knd, vars=vec([0] * len(m.vars)) if knd != 'LazyUserCutFlags' else '', cons='0:' + vec(flags))
+            res = _srv.request('presolve', **kw)
+            st['transfers'] += 1
+            if res.get('status') != 'ok': img.append(None); continue
+            img.append({(int(g), k): y for g, ys in res['res']['cons'].items() for k, y in enumerate(ys) if kind.get((int(g), k)) == 'shared'})
+        if img[0] is not None and img[1] is not None and img[0] != img[1]:
+            viols.append(('C04 presolve %s: the rows of a shared subexpression receive the value of one user but not of the other cfg=%s' % (knd, cfgname),
+                          {'model': m.describe(), 'image_from_first_user': {str(k): v for k, v in img[0].items()},
+                           'image_from_second_user': {str(k): v for k, v in img[1].items()}},
+                          {'nl': m.nl(), 'acc': acc, 'ops': [['presolve', dict(kind=knd, cons='0:' + vec([val, 0]))]]}))
+    return dict(st), viols[:10]
+
+
 def build():
     return flatlib.build()
 
@@ -519,6 +586,10 @@ def main(tier, seed):
         for st, viols in pool.imap_unordered(work_sep, sepjobs, chunksize=2):
             tot.update(st)
             for sig, det, rp in viols: chk.violation(sig, det, rp)
+        shjobs = [(name, m, cfgname, types) for (name, m) in shared_models() for cfgname, types in CONFIGS]
+        for st, viols in pool.imap_unordered(work_shared, shjobs, chunksize=1):
+            tot.update(st)
+            for sig, det, rp in viols: chk.violation(sig, det, rp)
     driver_part(chk, tier)
     for k, v in tot.items(): chk.set(k, v)
     chk.set('evaluations', tot['transfers'])
@@ -532,11 +603,12 @@ def main(tier, seed):
             '{PostsolveSolution(+/-), PresolveSolution, PresolveLazyUserCutFlags, Post/PresolveGeneric, PostsolveBasis / PostsolveIIS / '
             'PresolveBasis with every status vector over the matched rows and slacks} is run on a fresh instance and judged by structural '
             'row matching; then every history of depth <= %d over representative transfers is run and its last result compared with the '
-            'fresh-instance result. states = converted instances, transitions = transfers executed.'
+            'fresh-instance result; separable pairs (locality) and shared-subexpression pairs (the two users of one subexpression are treated alike). states = converted instances, transitions = transfers executed.'
             % (len(EXTRAS), [c[0] for c in CONFIGS], 2 if tier == 'quick' else 3))
     chk.assumptions += ['rows reach the solver in AddConstraint call order within a constraint group (as real backends assume)',
                         'a linear NL constraint is matched to its delivered row by coefficient vector over original variables and rhs/range '
                         '(range -> equality + slack in [0, ub-lb]); models where this matching is not unique are counted, not judged']
+    if tot['shared_instances'] < 5: chk.broken.append('vacuous: too few shared-subexpression instances judged (%d)' % tot['shared_instances'])
     if tot['sep_instances'] < 40: chk.broken.append('vacuous: too few separable-pair instances judged (%d)' % tot['sep_instances'])
     if tot['instances_with_range_slack'] < 20: chk.broken.append('vacuous: too few instances exercising range->slack')
     if tot['unmatched_models'] * 4 > max(1, tot['instances']): chk.broken.append('vacuous: structural matching failed on many models')
